@@ -137,6 +137,43 @@ func Value(v reflect.Value) interface{} {
 	panic("verifcodec: kind not handled: " + v.Kind().String())
 }
 
+// Prefixes returns the byte offsets of the length prefixes in the encoding of v (which starts at offset `at`) and the encoding's end
+func Prefixes(v reflect.Value, at int, out *[]int) int {
+	switch v.Kind() {
+	case reflect.Uint8, reflect.Uint16, reflect.Uint32, reflect.Uint64, reflect.Int8, reflect.Int16, reflect.Int32, reflect.Int64:
+		return at + int(v.Type().Size())
+	case reflect.String:
+		*out = append(*out, at)
+		return at + 4 + v.Len()
+	case reflect.Array, reflect.Slice:
+		if v.Kind() == reflect.Slice {
+			*out = append(*out, at)
+			at += 4
+		}
+		for i := 0; i < v.Len(); i++ {
+			at = Prefixes(v.Index(i), at, out)
+		}
+		return at
+	case reflect.Struct:
+		n := v.NumField()
+		for i := 0; i < n; i++ {
+			f := v.Type().Field(i)
+			if !encoded(f) {
+				continue
+			}
+			fv := v.Field(i)
+			if tagOmit(f) && fv.Len() == 0 {
+				continue
+			}
+			at = Prefixes(fv, at, out)
+		}
+		return at
+	case reflect.Ptr:
+		return Prefixes(v.Elem(), at, out)
+	}
+	panic("verifcodec: kind not handled: " + v.Kind().String())
+}
+
 func Ints(b []byte) []int {
 	out := make([]int, len(b))
 	for i, x := range b {
@@ -205,7 +242,13 @@ func extreme(rng *rand.Rand, bits int) uint64 {
 	return rng.Uint64() & mask
 }
 
+// Force, when not 99, makes every slice with a small maximum length exactly max+Force long (the systematic part of a run)
+var Force = 99
+
 func length(rng *rand.Rand, around, max int) int {
+	if max > 0 && max <= 600 && Force != 99 {
+		return max + Force
+	}
 	if max > 0 && max <= 600 && rng.Intn(6) == 0 {
 		return max - 1 + rng.Intn(3) // at the limit: max-1, max, max+1
 	}
@@ -374,9 +417,50 @@ func Run(pkg string, codecs []Codec) error {
 		if err := senc.Encode(M{"type": c.Name, "schema": schema}); err != nil {
 			return err
 		}
-		for i := 0; i < count; i++ {
+		decBoth := func(b []byte) error {
+			return enc.Encode(M{"fn": "dec", "pkg": pkg, "type": c.Name, "bytes": Ints(b), "gen": decode(c, b, true), "ref": decode(c, b, false)})
+		}
+		// ---- the systematic part: every length prefix of a small value set to every boundary length, cuts and tails around
+		// the end, and values whose bounded slices are exactly at, one below and one above their maximum
+		{
+			obj := c.New()
+			Fill(rng, reflect.ValueOf(obj).Elem(), 1, 0)
+			base := encoder.Serialize(obj)
+			offs := []int{}
+			Prefixes(reflect.ValueOf(obj), 0, &offs)
+			for _, o := range offs {
+				left := uint32(len(base) - o - 4)
+				for _, l := range append([]uint32{left - 1, left, left + 1}, lengths...) {
+					b := append([]byte{}, base...)
+					b[o], b[o+1], b[o+2], b[o+3] = byte(l), byte(l>>8), byte(l>>16), byte(l>>24)
+					if err := decBoth(b); err != nil {
+						return err
+					}
+				}
+			}
+			for k := 1; k <= 5; k++ {
+				tail := make([]byte, k)
+				if err := decBoth(append(append([]byte{}, base...), tail...)); err != nil {
+					return err
+				}
+				rng.Read(tail)
+				if err := decBoth(append(append([]byte{}, base...), tail...)); err != nil {
+					return err
+				}
+				if k <= len(base) {
+					if err := decBoth(base[:len(base)-k]); err != nil {
+						return err
+					}
+				}
+			}
+		}
+		for i := 0; i < count+3; i++ {
 			obj := c.New()
 			around := []int{0, 1, 2, 4, 9}[rng.Intn(5)]
+			Force = 99
+			if i >= count {
+				Force, around = i-count-1, 0 // -1, 0, +1 around every small maximum length
+			}
 			if big && i%50 == 0 {
 				around = 300
 			}
@@ -397,13 +481,13 @@ func Run(pkg string, codecs []Codec) error {
 				return err
 			}
 			// byte strings derived from this encoding, decoded by both
+			Force = 99
 			for k := 0; k < 2; k++ {
 				b := mutate(rng, rb)
 				if i == 0 && k == 1 {
 					b = append(append([]byte{}, rb...), 0, 0, 0, 0) // always: the written-out form of an empty last field
 				}
-				d := M{"fn": "dec", "pkg": pkg, "type": c.Name, "bytes": Ints(b), "gen": decode(c, b, true), "ref": decode(c, b, false)}
-				if err := enc.Encode(d); err != nil {
+				if err := decBoth(b); err != nil {
 					return err
 				}
 			}
